@@ -144,8 +144,11 @@ def run(ctx):
     if not ae:
         r3.fail('anchor/apply_escapes', 'src/util/str_escapes.rs', 'apply_escapes not found')
     else:
+        # the decoding may be spread over private helpers of the file: look at every non-test function of it
+        fam = [fn['body'] for f, fn, im in astq.all_fns(ast) if f == 'src/util/str_escapes.rs' and not fn['name'].startswith('test') and fn['name'] != 'apply_brace_escape']
+        famnode = {'k': 'family', 'bodies': fam}
         handled = set()
-        for m, ps in find_nodes(ae[0]['body'], lambda y: y.get('k') == 'match'):
+        for m, ps in find_nodes(famnode, lambda y: y.get('k') == 'match'):
             for a in m['arms']:
                 pl = a['pat'].get('lit') or a['pat'].get('s') or ''
                 m0 = re.fullmatch(r'"(\\?.)"', pl.strip())
@@ -153,7 +156,7 @@ def run(ctx):
                     handled.add(m0.group(1)[-1])
                 for lit in re.findall(r"'(.)'", a['pat'].get('s') or ''):
                     handled.add(lit)
-        handled_u = bool(find_nodes(ae[0]['body'], lambda y: y.get('k') == 'mcall' and y['method'] in ('from_str_radix',) or (y.get('k') == 'call' and src(y['func']).endswith('from_str_radix'))))
+        handled_u = bool(find_nodes(famnode, lambda y: y.get('k') == 'mcall' and y['method'] in ('from_str_radix',) or (y.get('k') == 'call' and src(y['func']).endswith('from_str_radix'))))
         doc_simple = {c for c in documented if c in 'nrt0\\"\''}
         for c in sorted(doc_simple):
             ok = c in handled
@@ -169,7 +172,7 @@ def run(ctx):
         if not ok:
             r3.fail('escape/unicode', 'src/util/str_escapes.rs', 'unicode escape handling / documentation mismatch')
         # the scalar value is validated (char::try_from / from_u32)
-        okv = bool(find_nodes(ae[0]['body'], lambda y: (y.get('k') == 'call' and re.search(r'char::(try_from|from_u32)$', src(y['func']))) or (y.get('k') == 'mcall' and y['method'] == 'try_into')))
+        okv = bool(find_nodes(famnode, lambda y: (y.get('k') == 'call' and re.search(r'char::(try_from|from_u32)$', src(y['func']))) or (y.get('k') == 'mcall' and y['method'] == 'try_into')))
         r3.inst({'unicode scalar validated': okv}, ok=okv)
         if not okv:
             r3.fail('escape/unicode-validation', 'src/util/str_escapes.rs', 'the code point of \\u{..} is not validated as a Unicode scalar value')
@@ -205,6 +208,9 @@ def run(ctx):
 
     # ---------------- R18.6
     table_lookups(ctx)
+
+    # ---------------- R18.7
+    single_pass_unescape(ctx)
 
 
 def table_lookups(ctx):
@@ -281,3 +287,61 @@ def table_lookups(ctx):
             if not guarded:
                 r6.fail('%s/char_starts[%s]' % (b.nid, name), mirq.site(b, bb), 'the code-point table is indexed by the caller-supplied position `%s` without a length test: a position equal to the length (admitted by the natives: the empty suffix) panics on strings with a table (non-ASCII), while the table-less branch returns the empty string' % name)
     r6.need(4)
+
+
+def single_pass_unescape(ctx):
+    """R18.7: a string literal is decoded in ONE left-to-right scan.  Every scan of the escape pattern in str_escapes.rs
+    (captures_iter / find_iter / replace_all / replace) runs over text that comes from the literal (a parameter of the public
+    entry point), never over text that an earlier scan of the same file has already decoded (the result of a local decoding
+    function, or a String this file has built).  Two passes decode `\\\\u{6e}` and `\\u{5c}n` twice."""
+    from .lib import mirq
+    from .lib.facts import strip_generics, op_place, callee_name
+    mir = ctx.mir
+    r7 = ctx.rule('R18.7', 'escape sequences are decoded in a single pass over the literal text')
+    FILE = 'src/util/str_escapes.rs'
+    bodies = [b for b in mir.bodies if b.file == FILE]
+    local_fns = {b.nid for b in bodies if b.kind == 'fn'}
+
+    def origin(b, local, depth=5):
+        """'literal' when the text comes from a parameter of an entry point (a function of this file with no caller inside the
+        file), through parameters of local helpers; otherwise a description of where it was produced"""
+        k, v = mirq.chase(b, local)
+        if k == 'arg':
+            top = mir.by_id.get(mir.enclosing_fn(b)) if b.kind == 'closure' else b
+            if b.kind == 'closure' or top is None:
+                return 'literal'
+            sites = [(cb, cbb, ct) for cb, cbb, ct in mir.callers_index().get(b.nid, []) if cb.file == FILE]
+            if not sites or depth == 0:
+                return 'literal'
+            outs = set()
+            for cb, cbb, ct in sites:
+                ap = op_place(ct['args'][v - 1]) if v - 1 < len(ct['args']) else None
+                outs.add(origin(cb, ap['l'], depth - 1) if ap is not None and not ap['p'] else 'literal')
+            bad = outs - {'literal'}
+            return next(iter(bad)) if bad else 'literal'
+        if k == 'call':
+            nm = strip_generics(callee_name(v[1]) or '')
+            if nm in local_fns:
+                return 'the result of %s' % nm.split('::')[-1]
+            if re.search(r'(Deref>::deref|::as_str|::as_ref|::borrow|AsRef>::as_ref)$', nm) and v[1]['args'] and op_place(v[1]['args'][0]) is not None:
+                return origin(b, op_place(v[1]['args'][0])['l'], depth)
+            if re.search(r'Try>::branch|::unwrap|::expect', nm) and v[1]['args'] and op_place(v[1]['args'][0]) is not None:
+                return origin(b, op_place(v[1]['args'][0])['l'], depth)
+            return 'the result of %s' % nm.split('::')[-1]
+        if k == 'rv':
+            pl = v[2]['rv'].get('place') or (op_place(v[2]['rv']['op']) if v[2]['rv']['k'] == 'use' else None)
+            if pl is not None:
+                return origin(b, pl['l'], depth)
+        return 'literal' if k == 'const' else 'unknown'
+    for b in bodies:
+        for bb, t in b.calls():
+            nm = strip_generics(callee_name(t) or '')
+            if not re.search(r'regex::.*Regex::(captures_iter|find_iter|replace_all|replace|replacen|captures|find)$', nm) or len(t['args']) < 2:
+                continue
+            hp = op_place(t['args'][1])
+            o = origin(b, hp['l']) if hp is not None and not hp['p'] else 'unknown'
+            ok = o == 'literal'
+            r7.inst({'fn': b.nid, 'scan': nm.split('::')[-1], 'scanned_text': o}, ok=ok, kind=(b.nid, bb))
+            if not ok:
+                r7.fail('%s/second-pass' % b.nid, mirq.site(b, bb), 'the escape pattern is scanned over %s, i.e. over text that has already been decoded once: a backslash produced by the first pass (from `\\\\\\\\` or `\\\\u{5c}`) starts a new escape in the second' % o)
+    r7.need(1)
